@@ -45,6 +45,9 @@ BOUNDED = [
     # vs. the real pandas run, statistics pinned to the real _fit): a test of assumptions, not a proof
     {"name": "theory_conformance_gaussian_aggregate", "script": "conformance_gaussian.py", "python": "vt", "tiers": ["quick"], "args": ["--n", "3"], "timeout": 1200},
     {"name": "theory_conformance_gaussian_aggregate", "script": "conformance_gaussian.py", "python": "vt", "tiers": ["thorough"], "args": ["--n", "18"], "timeout": 3000},
+    # the positional-array theory behind the weighted_median body proof, against numpy
+    {"name": "theory_conformance_weighted_median", "script": "conformance_posarr.py", "python": "vt", "tiers": ["quick"], "args": ["--n", "60"], "timeout": 1200},
+    {"name": "theory_conformance_weighted_median", "script": "conformance_posarr.py", "python": "vt", "tiers": ["thorough"], "args": ["--n", "600"], "timeout": 3000},
 ]
 
 
